@@ -153,7 +153,7 @@ def dispatcher_ok(d):
 
 
 @contract('pjrpc.server.dispatcher:Dispatcher.dispatch', also=('pjrpc.server.dispatcher:AsyncDispatcher.dispatch',),
-          props=['C01', 'C02', 'C03', 'C11', 'C12'])
+          props=['C01', 'C02', 'C03'])
 class Dispatch:
     types = {'self': 'pjrpc.server.dispatcher:BaseDispatcher', 'request_text': 'str', 'context': 'any'}
     raises_only = ()            # C01: the dispatcher never raises
